@@ -38,6 +38,20 @@ def max_matching(cands, nright):
     return sum(1 for i in range(len(cands)) if aug(i, set()))
 
 
+def quiet(ev, lookups, replies, fwd, botrsp):
+    if not {q['id'] for _, q in lookups.values()} <= {x['rspto'] for _, x in replies}:
+        return False
+    if not {b['id'] for _, b in fwd} <= {x['rspto'] for _, x in botrsp}:
+        return False
+    last = -1
+    for i, e in enumerate(ev):
+        if e.get('progress') or e.get('got') or e.get('gotq') or (e['e'][0] == 'd' and e.get('acc')):
+            last = i
+    tail = ev[last + 1:]
+    kinds = collections.Counter(e['e'] for e in tail)
+    return kinds['tick'] >= 3 and all(kinds[p] >= 1 for p in ('rt', 'rb', 'rx', 'rc'))
+
+
 def monitor(case):
     """Property C16 evaluated on an observed port trace; returns a description of
     the violation or None.  Sound: it only flags behaviour that contradicts a
@@ -138,12 +152,35 @@ def monitor(case):
                 return 'response to %s does not carry the payload of a memory response to its forwarded request' % r['id']
 
     ctl = [i for i, e in enumerate(ev) if e['e'] == 'dc' and e.get('acc')]
-    # -- completeness under the fair drain schedule (no control traffic)
-    if case.get('drained') and not ctl and not hostile:
-        if len(fwd) != len(deliv):
-            return 'lost request: %d delivered, %d forwarded although the environment answered everything' % (len(deliv), len(fwd))
-        if len(rsp) != len(deliv):
-            return 'lost response: %d delivered, %d answered although the environment answered everything' % (len(deliv), len(rsp))
+    acks = [i for i, e in enumerate(ev) if e['e'] == 'rc' and e.get('got')]
+    # -- completeness when quiet.  Quiet (re-derived from the trace, not trusted from the harness): every
+    #    lookup and every bottom request the environment retrieved got an ACCEPTED reply, and the history ends
+    #    with three rounds in which nothing moved (no tick progress, every port empty).  Then every request
+    #    delivered after the acknowledgement of the last restart must have been forwarded and answered,
+    #    provided that restart was taken while flushing (the control message before it is a discard: only
+    #    then are both tables empty at the restart, see at_restart_without_discard_refuted) and nothing
+    #    followed it.  Without any control traffic: every delivered request.
+    if case.get('drained') and not hostile and distinct and quiet(ev, lookups, replies, fwd, botrsp):
+        start = None
+        if not ctl:
+            start = -1
+        elif (len(ctl) >= 2 and len(acks) >= len(ctl) and ev[ctl[-1]]['msg']['flags'] & 3 == 2
+              and ev[ctl[-2]]['msg']['flags'] & 1):
+            start = acks[len(ctl) - 1]
+        case['_scope'] = 'none' if start is None else ('all' if start < 0 else 'after-restart')
+        if start is not None:
+            tags = {b['rspto'] for _, b in fwd}
+            answered = set(rsptos)
+            for i, m in deliv:
+                if i > start and m['rspto'] == m['id']:
+                    if m['id'] not in tags:
+                        return ('lost request: request %d (PID %d, addr %d)%s was never forwarded although every '
+                                'lookup and every memory request was answered and the translator is quiet'
+                                % (m['id'], m['pid'], m['addr'],
+                                   ', delivered after the last restart was acknowledged,' if start >= 0 else ''))
+                    if m['id'] not in answered:
+                        return ('lost response: request %d was forwarded but never answered although every memory '
+                                'request was answered and the translator is quiet' % m['id'])
     # -- flush: once the acknowledgement of a discard has been seen, only what was
     #    already queued in a port (at most `width`) can still come out for requests
     #    delivered before the discard
@@ -320,6 +357,8 @@ def main(argv):
         'translation_replies_out_of_order': sum(s['ooo_tr'] for s in sts),
         'memory_responses_out_of_order': sum(s['ooo_bot'] for s in sts),
         'drained_cases': sum(1 for c in cases if c.get('drained')),
+        'quiet_rule_all_requests': sum(1 for c in cases if c.get('_scope') == 'all'),
+        'quiet_rule_after_restart': sum(1 for c in cases if c.get('_scope') == 'after-restart'),
         'flush_cases': sum(1 for c in cases if any(e['e'] == 'dc' and e.get('acc') for e in c['events'])),
         'hostile_cases': sum(1 for c in cases if c.get('hostile')),
         'crash_cases': sum(1 for c in cases if any(e.get('crash') for e in c['events'])),
